@@ -2,7 +2,7 @@
 //! Complete enumeration: 7 codecs x 256 bytes x {ASCII decoders, bit decoders} + all symbols.
 
 use crate::codecs::*;
-use crate::model::{CodecId, ALL_CODECS};
+use crate::model::{CodecId, BUILTIN_CODECS as ALL_CODECS};
 use crate::obs::*;
 use bio_seq::prelude::*;
 
